@@ -277,9 +277,16 @@ class SamplerCore:
             print(f"Error while saving state: {e}")
             raise
 
-        # Save to file
-        with open(path, "wb") as f:
+        # Save to file atomically: a crash while writing must never leave a
+        # truncated file under the checkpoint's final name
+        import os
+
+        temp_path = path.with_name(path.name + ".temp")
+        with open(temp_path, "wb") as f:
             dill.dump(d, f)
+            f.flush()
+            os.fsync(f.fileno())
+        os.replace(temp_path, path)
 
     def load_sampler_state(self, path: Union[str, Path]):
         """Load state (replaces Sampler.load_state - 28 lines)."""
